@@ -259,7 +259,7 @@ async def send_or_giveup(w, obj, spins=2000):
     return False
 
 
-async def run_sequences(seqs):
+async def run_sequences(seqs, via=frozenset()):
     """seqs: list of (descriptors, close?).  One client per closing sequence, a shared one for the others (replaced by a
     fresh one when its writer stops consuming).  Returns per sequence (writes, closed, idle_reached)."""
     out = [None] * len(seqs)
@@ -293,7 +293,21 @@ async def run_sequences(seqs):
             async with client:
                 _r, w = client.get_streams()
                 alive = True
-                for d in descs:
+                for j, d in enumerate(descs):
+                    if i in via and j % 2 == 0:
+                        # the older entry point of the same queue, StdioClient.send_json(msg): one queue, one writer, one order -
+                        # and closing the write stream afterwards still ends the child's stdin
+                        sent = False
+                        with anyio.move_on_after(2):
+                            try:
+                                await client.send_json(build(d)[0])
+                                sent = True
+                            except (anyio.BrokenResourceError, anyio.ClosedResourceError):
+                                pass
+                        if not sent:
+                            alive = False
+                            break
+                        continue
                     if not await send_or_giveup(w, build(d)[0]):
                         alive = False
                         break
@@ -527,7 +541,8 @@ def explore(ctx, drv):
     ctx.extra["raw_string_policy_of_tree_under_test"] = "Verbatim (as before the fix)" if policy == 0 else "Recompact (as /repo HEAD)"
     ctx.extra["tree_under_test"] = lib.REPO
     seqs = gen_sequences(ctx)
-    impl = anyio.run(run_sequences, seqs)
+    via = frozenset(i for i, (_d, close) in enumerate(seqs) if close and i % 3 == 1)     # every other message through send_json()
+    impl = anyio.run(run_sequences, seqs, via)
     reqs = []
     for descs, close in seqs:
         evs = [sx_model_msg(*serialiser_results(build(d)[0])) for d in descs]
@@ -536,8 +551,10 @@ def explore(ctx, drv):
         reqs.append(call(0, str(policy), "(" + " ".join(evs) + ")"))
     mres = drv.run(reqs)
     rows = []
-    for (descs, close), (writes, closed, idle), (m_writes, m_closed) in zip(seqs, impl, mres):
-        case = {"messages": descs, "close": close}
+    for k, ((descs, close), (writes, closed, idle), (m_writes, m_closed)) in enumerate(zip(seqs, impl, mres)):
+        case = {"messages": descs, "close": close, **({"every_other_message_via_send_json": True} if k in via else {})}
+        if k in via:
+            ctx.count("entry:send_json-mixed")
         ctx.case(case, nontrivial=len(descs) > 0)
         ctx.count("len:" + (str(len(descs)) if len(descs) <= 7 else "8-99" if len(descs) < 100 else "100+"))
         ctx.count("close:" + ("yes" if close else "no"))
@@ -631,7 +648,8 @@ def replay(ctx, data):
             print("REPRODUCED", json.dumps(f)[:800])
         return 1 if ctx.spec_fail else 0
     policy = anyio.run(_probe_policy)
-    (writes, closed, _idle), = anyio.run(run_sequences, [(descs, close)])
+    (writes, closed, _idle), = anyio.run(run_sequences, [(descs, close)],
+                                          frozenset({0}) if case.get("every_other_message_via_send_json") else frozenset())
     print("bytes on stdin:", [w for w in writes])
     judge_all(ctx, drv, [(case, descs, close, writes, closed)])
     for f in ctx.spec_fail:
